@@ -65,6 +65,9 @@ def dense_obs(sc, system, f):
     if sol is None or len(t) < 2:
         return out
     pieces = list(sol.y_interpolants)
+    # pieces of both orientations: some integrate() call ran against an earlier one, the passes overlap
+    orient = {(num.frac(p.t1) > num.frac(p.t0)) for p in pieces if hasattr(p, "t0") and hasattr(p, "t1") and num.frac(p.t1) != num.frac(p.t0)}
+    out["turned"] = len(orient) > 1
     log = []
     sol.y_interpolants = [_Recorder(p, log) for p in pieces]
     it = scen.Interner()
@@ -103,8 +106,21 @@ def dense_obs(sc, system, f):
             if not (a_ <= fq <= b_):
                 near = a_ if fq < a_ else b_
                 rec["outUnits"] = num.gap_units(q, near, [q, served.t0, served.t1], dt)
+        rec["amb"] = False
         if kind == "grid":
             rec["exact"] = bool(num.canon_bytes(v) == num.canon_bytes(y[i]))
+            if out["turned"]:
+                # a time recorded in one pass may lie inside a step of another pass (or be recorded there with another state): "the
+                # recorded state" at that time is then not unique.  Unique = every piece containing it has it as an end with this state.
+                fq = num.frac(q)
+                for p in pieces:
+                    if not (hasattr(p, "t0") and hasattr(p, "t1")):
+                        continue
+                    a_, b_ = num.frac(p.t0), num.frac(p.t1)
+                    if min(a_, b_) <= fq <= max(a_, b_):
+                        end_state = p.p0 if fq == a_ else (p.p1 if fq == b_ else None)
+                        if end_state is None or num.canon_bytes(end_state) != num.canon_bytes(y[i]):
+                            rec["amb"] = True
             if rich:
                 from vf import twins
                 rec["tolUnits"] = twins.tol_units(v, y[i], rt, at)
@@ -132,7 +148,7 @@ def dense_obs(sc, system, f):
                               "m0Tol": _tw.tol_units(p.m0, f0, rt, at), "m1Tol": _tw.tol_units(p.m1, f1, rt, at)})
         prev = p
     prob = sc.get("problem", "osc")
-    if prob in ("rat", "tdep") and not rich:
+    if prob in ("rat", "tdep") and not rich and not out["turned"]:
         m4 = _m4_bound(prob, t, y[:, 0])
         for i in range(len(t) - 1):
             mid = t[i] + (t[i + 1] - t[i]) * np.asarray(0.5, dtype=dt)
